@@ -33,10 +33,20 @@ def rd(path):
     return o
 
 
+def unb(x):
+    """one argument: hex, or <hexprefix>~<n>~<bb> (prefix followed by n times the byte bb)"""
+    if x == "-":
+        return b""
+    if "~" in x:
+        p, n, bb = x.split("~")
+        return (bytes.fromhex(p) if p else b"") + bytes([int(bb, 16)]) * int(n)
+    return bytes.fromhex(x)
+
+
 def unh(h):
     if h == "":
         return []
-    return [b"" if x == "-" else bytes.fromhex(x) for x in h.split(",")]
+    return [unb(x) for x in h.split(",")]
 
 
 def show(args, lim=48):
@@ -126,8 +136,7 @@ def correspondence(d):
             if ak in cases and unh(cases[k].split("\t")[1])[0].lower() != b"geoadd":
                 want = cases[ak].split("\t")[2]
                 got = m.split(" ")[1] if " " in m else ""
-                mw, mg = want.split(","), got.split(",")
-                if mw[1:] != mg[1:]:
+                if unh(want)[1:] != unh(got)[1:]:
                     mm.append((k, "proposed " + want[:200], "proposed " + got[:200]))
     for k in model:
         if k not in impl and k in cases:
@@ -208,6 +217,11 @@ def oracle(d, rc):
             if sb in ("panic", "hung") and acceptable:
                 mk("apply-%s-%s" % (sb, vid), [vid],
                    "a vector the leader accepts makes ApplyRaftRequest %s: %s" % (sb, bytes.fromhex(f.get("msg", "") if f.get("msg", "-") != "-" else "").decode("latin1")))
+            if sb == "precheck-passed-but-error":
+                et = bytes.fromhex(f.get("err", "") if f.get("err", "-") != "-" else "").decode("latin1")
+                mk("precheck-%s" % vid, [vid],
+                   "node.isValidBatchableWrite lets this command join the shared write batch of the apply loop, but its handler refuses it (%s): "
+                   "inside a batch that error aborts the batch and the other clients' writes collected so far are dropped and answered with this error" % et)
             if sb in ("error-changed", "leak"):
                 et = bytes.fromhex(f.get("err", "") if f.get("err", "-") != "-" else "").decode("latin1")
                 if acceptable:
@@ -224,9 +238,9 @@ def oracle(d, rc):
         elif k[0] == "P":
             hist["pair:" + f.get("pair", "?")] += 1
             if f.get("pair") != "eq":
-                ids = f.get("ids", "").split(",")
+                ids = [i for i in f.get("ids", "").split(",") if not i.startswith("N")]
                 mk("pair-%s-%s" % (f.get("pair"), k), ids,
-                   "replica A (all accepted commands) and replica B (the same without the commands that answered an error) differ or A failed: %s %s" % (f.get("pair"), f.get("detail", "")),
+                   "replicas A (accepted commands batched as the apply loop batches them, half of them between two valid batchable neighbour writes N..), B (the same without the requests that answered an error) and C (every request alone) disagree, a valid neighbour lost its reply, or A failed: %s %s" % (f.get("pair"), f.get("detail", "")),
                    extra=dict(rsp=f.get("rsp")))
     # the process must stay alive: the journal names the vector in flight
     jl = []
@@ -325,7 +339,9 @@ def run_epochs(ctx, jobs, avoid, budget=600):
         res.append((sub, d, rc, out))
     mprocs = []
     for sub, d, rc, out in res:
-        mprocs.append(subprocess.Popen("%s < cases.tsv > model.out" % vlib.modelrun_path(GROUP), shell=True, cwd=d))
+        # the sized values of the length sweep are lists of ~10^6 elements in the extracted model: no stack limit
+        mprocs.append(subprocess.Popen("ulimit -s unlimited 2>/dev/null; %s < cases.tsv > model.out" % vlib.modelrun_path(GROUP),
+                                       shell=True, cwd=d, executable="/bin/bash"))
     for p in mprocs:
         p.wait()
     return res
@@ -375,6 +391,14 @@ def run(ctx):
             eng = "mem" if (quick or i % 3 != 2) else "pebble"
             pol = "wait_compact" if i % 2 == 1 else "local_deletion"
             jobs.append(("fresh-%d" % i, "-seed %d -n %d -engine %s -policy %s -port %d%s%s" % (ctx.seed * 1000 + i, n, eng, pol, pbase + 3 * len(jobs), " -big" if i == 0 else "", " -v2" if i % 4 == 3 else "")))
+    if not ctx.replay:
+        # length sweep: values / members / keys of the size constants of the write path +-32 bytes, for every
+        # write command; quick: constants up to 1 MiB in 4 slices, thorough: all of them, all positions
+        nsl, mx = (4, 1 << 20) if quick else (6, 16 << 20)
+        for k in range(nsl):
+            pol = "wait_compact" if k % 2 == 0 else "local_deletion"
+            jobs.append(("sweep-%d" % k, "-seed %d -sweep %d -sweeppart %d/%d -policy %s -port %d%s" % (
+                ctx.seed, mx, k, nsl, pol, pbase + 3 * len(jobs), "" if quick else " -sweepfull")))
     res = run_epochs(ctx, jobs, avoid, budget=(420 if quick else 2400))
 
     all_mism, all_fail, total = [], [], 0
